@@ -690,6 +690,26 @@ func (x *Exec) debugRef(st *State, fr *Frame, in *ssa.DebugRef) {
 
 func (x *Exec) safetyOn() bool { return x.rootC != nil && x.rootC.Safety }
 
+// safetyKind: is this kind of run-time check a proof obligation in the function under verification?
+func (x *Exec) safetyKind(kind string) bool {
+	if x.rootC == nil || x.rootC.SafetyOff {
+		return false
+	}
+	if x.rootC.Safety || x.rootC.SafetyKinds[kind] {
+		return true
+	}
+	return x.rootC.SafetyKinds == nil && defaultSafety[kind]
+}
+
+// run-time checks proved in every function under contract unless its contract says otherwise (GOVC_SAFETY)
+var defaultSafety = func() map[string]bool {
+	m := map[string]bool{}
+	for _, k := range strings.Fields(strings.ReplaceAll(os.Getenv("GOVC_SAFETY"), ",", " ")) {
+		m[k] = true
+	}
+	return m
+}()
+
 func (x *Exec) nilCheck(st *State, p PtrV, what string) {
 	if p.Elem || isLiteral(p.Base.S) || strings.HasPrefix(p.Base.S, "(+ ALLOC0") {
 		return
@@ -1731,6 +1751,10 @@ func (x *Exec) selectOp(st *State, fr *Frame, in *ssa.Select) []*State {
 	if !in.Blocking {
 		choices = n + 1
 	}
+	// every arm's channel is polled by the select, whichever arm is then chosen: on("poll", ch)
+	for _, sst := range in.States {
+		x.chanEvent(st, "poll", x.val(st, fr, sst.Chan), nil, nil)
+	}
 	states := make([]*State, choices)
 	states[0] = st
 	for i := 1; i < choices; i++ {
@@ -1868,7 +1892,7 @@ func (x *Exec) typeAssert(st *State, fr *Frame, in *ssa.TypeAssert) []*State {
 // assumeOrCheck: a run-time check of Go (type assertion, bounds, division). With `safety on` it is a proof
 // obligation; otherwise it is assumed and listed.
 func (x *Exec) assumeOrCheck(st *State, kind, what string, cond Term) {
-	if x.safetyOn() {
+	if x.safetyKind(kind) {
 		x.safety(st, kind, what, cond)
 		return
 	}
